@@ -141,13 +141,43 @@ def run_c17(F, R):
     R.floor('T5-trait-shape', 2)
     R.floor('T6-clone-derived', 36)
     # T1: every field of every local ADT (views and anything they may embed)
+    # ADTs that can be part of a view's state: reachable from a view's field types. A type outside that set that carries a lifetime
+    # parameter (a borrowing helper built on the stack, e.g. `struct NewestFirst<'a, T>(&'a VecDeque<T>)`) cannot be stored in a
+    # view (no view has a lifetime parameter): a *shared* reference field there is a temporary borrow, not shared state.
+    reach = set(view_adts)
+    work = list(view_adts)
+
+    def _adts_in(ty, acc):
+        if isinstance(ty, dict):
+            if ty.get('adt') in F.adts:
+                acc.add(ty['adt'])
+            for k_ in ('args', 'tuple'):
+                for x in ty.get(k_, []) or []:
+                    _adts_in(x, acc)
+            for k_ in ('array', 'slice', 'ref', 'ptr'):
+                if isinstance(ty.get(k_), dict):
+                    _adts_in(ty[k_], acc)
+        return acc
+    while work:
+        a_ = F.adts.get(work.pop())
+        if not a_:
+            continue
+        for var in a_['variants']:
+            for fld in var['fields']:
+                for nxt in _adts_in(fld['ty'], set()):
+                    if nxt not in reach:
+                        reach.add(nxt)
+                        work.append(nxt)
     for path, adt in sorted(F.adts.items()):
         probs = []
         nfields = 0
+        stack_only = path not in reach
         for var in adt['variants']:
             for fld in var['fields']:
                 nfields += 1
                 for (w, reason) in ty_problems(fld['ty'], local_adts):
+                    if stack_only and reason.startswith('reference field') and isinstance(fld['ty'], dict) and 'ref' in fld['ty'] and not fld['ty'].get('mut'):
+                        continue
                     probs.append('%s.%s%s: %s' % (adt['name'], fld['name'], w, reason))
         R.ob('T1-fields', adt['name'], not probs,
              '; '.join(probs) if probs else '%d fields, all of allow-listed owned value types' % nfields,
